@@ -155,6 +155,9 @@ let () =
          end else if crashed then begin
            incr mism;
            Printf.printf "MISMATCH crash-unpredicted %s kind=%s where=%s class=%s\n" id kind where cls
+         end else if observed = "handler-panic" then begin
+           incr mism;
+           Printf.printf "MISMATCH handler-panic %s kind=%s where=%s class=%s\n" id kind where cls
          end else if observed = "hang" || observed = "none" then begin
            incr mism;
            Printf.printf "MISMATCH %s %s kind=%s where=%s\n" observed id kind where
